@@ -13,7 +13,56 @@ NOTE_COMMON = ("Trusted: Lean 4.33 kernel; axioms of every property theorem with
                "python/re/decimal/PLY runtime semantics as modelled. ")
 
 # id -> (technique, level text, level note, design ref)
+T_CORR = " + correspondence (model vs implementation, differential) + python oracle for the failing-input search"
 CLAIMED = {
+    "C01": ("Lean 4 proof: table-independent LR-run invariant (flat text), lexer slicing lemma, kernel-checked table facts" + T_CORR,
+            "Theorem parse_lossless_partial: for every string s, if the model's parse accepts s and no blank stands directly "
+            "before a ':' (known finding KF1), printing the tree with heads/tails in source numeral spelling gives back s "
+            "character for character; the run lemma holds for ARBITRARY LALR tables (any shift, any reduce), three decide "
+            "+kernel facts tie it to the generated tables; print_norm_eq_raw_respelled relates what the implementation prints "
+            "to the source spelling. Negative witness for KF1 and a non-vacuity example are kernel-checked.",
+            NOTE_COMMON + "Lexer, head/tail, grammar actions, printing are hand-modelled (tables and regex trees are "
+            "translated). Numeral re-spelling (render/normalize) is modelled; its arithmetic lemmas are not proved yet.", "5 C01"),
+    "C02": ("correspondence + per-node position oracle; Lean obligations shared with C01 (position theorem in progress)",
+            "All four clauses (slice = node text, widened slice, children nested/ordered/disjoint, root span) are evaluated on "
+            "every node of every accepted generated query on the implementation, and the model (which computes pos/size with "
+            "the same HeadTailManager arithmetic) must agree node by node. The Lean theorem Laid (positions) is not proved at "
+            "this commit: the machine-checked part is the C01 text invariant on which it rests.",
+            NOTE_COMMON + "Position arithmetic is covered by differential testing only at this commit.", "5 C02"),
+    "C03": ("translator obligations (tables fresh, regex trees, reserved map) by decide + three-way differential "
+            "(implementation / LR model over generated tables / independent precedence-climbing spec); certificate proof in progress",
+            "The LR model runs over the tables regenerated from the live parser on every run; freshness of parsetab.py against "
+            "the grammar source is an obligation; an independent python specification parser (implicit < OR < AND < prefix < "
+            "field < suffix) must give the same tree for every accepted query, and two re-layouts of every query must give "
+            "equal trees.",
+            NOTE_COMMON + "The abstract-interpretation certificate (Canon) theorem is not merged at this commit.", "5 C03"),
+    "C04": ("correspondence over call histories with forked history-free references; Lean: total model with explicit error type",
+            "Histories of 2-8 calls mixing valid, syntactically wrong, illegal-character and malformed-numeral inputs through "
+            "both entry points; every outcome must equal the outcome in a forked child that never parsed anything and the "
+            "model's; only ParseSyntaxError / IllegalCharacterError may escape. The model's parse is a total Lean function "
+            "into Except ParseErr Tree.",
+            NOTE_COMMON + "History independence theorem (stateful lexer model) in progress.", "5 C04"),
+    "C05": ("correspondence (JSON and exception messages equal) + reference semantics on random documents; Lean proof in progress",
+            "The model of the builder (visitor, E-tree, JSON) agrees with the implementation on every generated (config, tree); "
+            "for every translated query the JSON is evaluated by a reference bool/nested evaluator on random nested documents "
+            "and compared with the reference denotation of the tree; KF3-KF5 are recognised by re-evaluating with the "
+            "finding's predicted semantics.",
+            NOTE_COMMON + "The equivalence theorem is not merged at this commit.", "5 C05"),
+    "C06": ("correspondence + expected-leaf-clause oracle + builder call histories",
+            "Leaf clauses of the JSON are compared as a multiset with the clauses expected from the tree (field, text, kind, "
+            "zero_terms_query, _name, boost/fuzziness/slop incl. field_options); same builder twice / fresh builder / class "
+            "attribute snapshots for purity; JSON round trip.",
+            NOTE_COMMON + "Lean theorem about leaves in progress.", "5 C06"),
+    "C07": ("correspondence + independent refusal predicate; Lean proof in progress",
+            "Exception class and message must equal the model's; an independent python predicate (container misuse in "
+            "pre-order, else AND/OR mix after same-class flattening) must predict refusal exactly.",
+            NOTE_COMMON + "KF5 recognised by recomputing the predicate with parents-of-leaves as containers.", "5 C07"),
+    "C08": ("Lean 4 proof (visitEvents = preorder map dispatch, cache consistency, preorder context, copy lemmas)" + T_CORR,
+            "Theorems: for every handler table, consistent cache, tree: the events of a visit are exactly the pre-order "
+            "enumeration with dispatch along the generated MRO, true ancestors and index path; the cache stays consistent "
+            "(visit_twice); preorder has nodeCount entries with pairwise distinct, lexicographically increasing paths; the "
+            "default transformer gives an eqv, identically printing tree with the same layout at every path.",
+            NOTE_COMMON + "Object identity / non-mutation are checked on the implementation only (ids, deep snapshots).", "5 C08"),
     "C09": (
         "Lean 4 proof (eqv <-> content equality, clone lemmas) + translator (class table by decide) + "
         "correspondence",
@@ -23,6 +72,63 @@ CLAIMED = {
         "__eq__/clone_item iterate over are regenerated from the source and compared with the model's by "
         "`decide`. Model tied to the code by differential runs of __eq__, clone_item and __str__.",
         NOTE_COMMON + "Finite Decimals only, 20 concrete classes.", "5 C09"),
+    "C10": ("Lean 4 proof (resolve = relabel, no unknown left, lucene skeleton, idempotence, meaning)" + T_CORR,
+            "Theorems: for explicit targets resolve = the structural relabelling; no implicit operation is left for all four "
+            "targets; Lucene mode changes only operation kinds (all AND without explicit operator); idempotence; boolean "
+            "meaning preserved (evalB) under leavesResolved; layout changes only by add_head on later operands.",
+            NOTE_COMMON + "The last_operation dict sharing is modelled as a threaded store.", "5 C10"),
+    "C11": ("correspondence of the transformers and the parser/printer models + truth-table oracle on the implementation; "
+            "Lean: component theorems (C01, C08, C10, C12, C13)",
+            "For every parsed query and shipped transformer the result is printed and re-parsed on the implementation and "
+            "both trees are compared by truth table over their leaves and by their multiset of leaves and boosts; KF6-KF9 "
+            "are recognised by re-running the round trip with the finding's repair.",
+            NOTE_COMMON + "The end-to-end Lean theorem needs the lexer adjacency lemmas (not proved): partial.", "5 C11"),
+    "C12": ("Lean 4 proof (conversion spec, no comparison left, mergeOps preserves the conjunction over any order)" + T_CORR,
+            "Theorems: openRange without merging is the plain conversion; no From/To remains; mergeOps_conj: for every value "
+            "the conjunction of the merged operands holds iff that of the original ones (any LE/LT structure); operands "
+            "without bound side survive in order; without AND nodes merging changes nothing.",
+            NOTE_COMMON, "5 C12"),
+    "C13": ("Lean 4 proof (aht eqv, layout, idempotence, failure characterisation)" + T_CORR,
+            "Theorems: auto_head_tail returns an eqv tree, changes only empty heads/tails into '' or ' ', is idempotent, fails "
+            "exactly on operations without operands. The print/parse round trip (iv) is checked on the implementation for "
+            "all expressible generated trees (expressibility decided by the all-blanks spelling); KF8, KF9 recognised.",
+            NOTE_COMMON + "(iv) depends on lexer adjacency lemmas that are not proved: partial.", "5 C13"),
+    "C14": ("Lean 4 proof on an abstract machine (frame property of interleaved atomic steps) + forced-schedule "
+            "differential runs + access audit of the shared parser object",
+            "Workers run under a deterministic scheduler that blocks each at every lexer step until a seeded schedule grants "
+            "the turn; outcomes must equal sequential ones; the attributes of the shared LRParser object written/read during "
+            "a parse are audited. Lean: machine and frame theorem (in progress at this commit).",
+            NOTE_COMMON + "GIL / byte-code atomicity and PLY internals outside the audited accesses are not modelled: partial.",
+            "5 C14"),
+    "C15": ("Lean 4 proof (named = operands, mapping exact, names pairwise distinct via rank, alphabet facts by decide)" + T_CORR,
+            "Theorems for every tree without names: auto_name never fails; the named nodes are exactly the direct operands of "
+            "operations (or the root alone); the mapping is exactly {name: path}; names and paths are pairwise distinct for "
+            "any number of operands (rank strictly increases; the needed alphabet facts are checked by decide on the "
+            "generated LETTERS/_pos_letter).",
+            NOTE_COMMON, "5 C15"),
+    "C16": ("Lean 4 proof (propagate = boolean evaluation on visible nodes; class tuples by case analysis on generated data)" + T_CORR,
+            "Theorem propagate_correct: under the property's hypotheses, for both default operations and every truth "
+            "assignment, a visible node is in the matching set iff it evaluates to true, in the other set iff false, each "
+            "exactly once.",
+            NOTE_COMMON, "5 C16"),
+    "C17": ("Lean 4 proof (erase tags = text, balanced, render, class per character, parsimonious = same classes)" + T_CORR,
+            "Theorems for any tree, any path sets, both modes: erasing the tags from the token-level output gives the tree's "
+            "text; tags are balanced; the rendered string is the implementation's output; each character carries the class "
+            "of the innermost marked ancestor; the parsimonious mode gives the same class per character.",
+            NOTE_COMMON + "'original query' inherits C01's hypothesis (KF1).", "5 C17"),
+    "C18": ("correspondence of the Prettifier model + re-parse oracle; Lean proof in progress",
+            "The model's output equals the implementation's for all generated trees and settings; for parsed queries the "
+            "pretty text must parse to an equal tree, be deterministic, leave the input untouched; KF10 recognised.",
+            NOTE_COMMON + "The structure theorem (only blanks inserted between chunks) is not merged yet: partial.", "5 C18"),
+    "C19": ("correspondence of SchemaAnalyzer + builder models + per-leaf oracle on random mappings; Lean proof in progress",
+            "For every leaf of random mappings (legacy and current layout, nested/object/implicit object/multi-fields) and both "
+            "query spellings the clause must be on the full path, term-level iff not analysed text, nested on the innermost "
+            "nested ancestor; equivalent spellings of field specs must configure equal outcomes.",
+            NOTE_COMMON, "5 C19"),
+    "C20": ("correspondence (message lists equal) + translator (method table) + WF / defect-injection oracle; Lean proof in progress",
+            "Totality, errors()/__call__ consistency and non-mutation on arbitrary trees; well-formed trees by construction are "
+            "accepted; each of 7 defect kinds injected at every reachable position is rejected; messages equal the model's.",
+            NOTE_COMMON, "5 C20"),
 }
 
 PLANNED = {}
